@@ -787,7 +787,7 @@ def check(run):
     run_op_cases(run, [('k:%d' % i, c) for i, c in enumerate(cops)], impl_exe, numops_exe, dec_exe, 'corpus')
     run_literal_cases(run, [('kl:%d' % i, t) for i, t in enumerate(FIXED_LITS + clits)], impl_exe, dec_exe, 'lit')
     # generated ops
-    per_op = 60 if quick else 1500
+    per_op = 60 if quick else 800
     cases = []
     for op in ALL_OPS:
         for i in range(per_op):
@@ -795,12 +795,12 @@ def check(run):
     for chunk in range(0, len(cases), 20000):
         run_op_cases(run, cases[chunk:chunk + 20000], impl_exe, numops_exe, dec_exe, 'ops')
     # generated literals
-    nl = 1200 if quick else 40000
+    nl = 1200 if quick else 20000
     lits = [('l:%d' % i, gen_literal(rng)) for i in range(nl)]
     for chunk in range(0, len(lits), 20000):
         run_literal_cases(run, lits[chunk:chunk + 20000], impl_exe, dec_exe, 'lit')
     # values to print
-    nv = 1200 if quick else 40000
+    nv = 1200 if quick else 20000
     vals = list(GRID_BITS) + [rand_double(rng) for _ in range(nv)]
     run_print_cases(run, vals, impl_exe, dec_exe)
 
